@@ -5219,6 +5219,8 @@ class PyCdlib:
         if udf_path is not None:
             if self.udf_root is None:
                 raise pycdlibexception.PyCdlibInvalidInput('Can only specify a UDF path for a UDF ISO')
+            if utils.normpath(udf_path) == b'/':
+                raise pycdlibexception.PyCdlibInvalidInput('Cannot remove base directory')
             if utils.normpath(udf_path) != b'/':
                 (udf_ident_unused, udf_child) = self._find_udf_record(utils.normpath(udf_path))
                 if udf_child is not None:
